@@ -165,6 +165,12 @@ impl World {
 
     /// Build a fresh allocator; a panic or error during construction is data.
     pub fn new(frames: usize, init: &str, cls_name: &str, k: usize) -> Self {
+        Self::new_dirty(frames, init, cls_name, k, None)
+    }
+    /// `dirty`: fill the lower and tree buffers with pseudo-random bytes first (metadata memory that was
+    /// used before, e.g. persistent memory); FreeAll / AllocAll must not depend on the previous content.
+    /// (The local buffer stays zeroed: the crate never initializes it, callers hand in zeroed memory.)
+    pub fn new_dirty(frames: usize, init: &str, cls_name: &str, k: usize, dirty: Option<u64>) -> Self {
         let cls = classing(cls_name, k);
         let ms = Self::sizes(frames, &cls);
         let w = World {
@@ -182,6 +188,19 @@ impl World {
             last: vec![],
             init_err: None,
         };
+        if let (Some(seed), true) = (dirty, init == "free" || init == "alloc") {
+            let mut x = seed | 1;
+            for b in [&w.lower, &w.trees] {
+                let sl = b.slice();
+                for (i, v) in sl.iter_mut().enumerate() {
+                    x ^= x << 13;
+                    x ^= x >> 7;
+                    x ^= x << 17;
+                    // mostly 0xff / random bytes: huge markers, full counters, set bits
+                    *v = if (seed + i as u64 / 64) % 3 == 0 { 0xff } else { (x >> 24) as u8 };
+                }
+            }
+        }
         w.build(init)
     }
 
